@@ -464,7 +464,7 @@ func (c *Ctx) ruleC14Predicate() {
 		r.Undecided("C14-PREDICATE", "anchor", "no name predicate guards the Stat of the include resolver", "")
 		return
 	}
-	p := translatePredicate(f.Pkg, f.Decl)
+	p := translatePredicateWith(f.Pkg, f.Decl, func(h *types.Func) *ast.FuncDecl { return c.P.Decl(h) })
 	if len(p.problems) > 0 {
 		for _, pr := range p.problems {
 			r.Undecided("C14-PREDICATE", "translation", "the predicate uses a construct outside the decidable subset, so inclusion in the safe language cannot be decided: "+pr, c.pos(f.Decl.Pos()))
